@@ -13,14 +13,20 @@ func SpecUeOK(ue *ChfUe) bool {
 		ue.Cdr != nil && ue.AbmfClient != nil && ue.RatingClient != nil && ue.AbmfMux != nil && ue.RatingMux != nil
 }
 
+// SpecUeOf: the subscriber context registered for a SUPI. A context, once added to the pool, is never
+// replaced (AddChfUeToUePool is only called by NewCHFUe after a failed lookup).
+//@ func SpecUeOf
+//@   abstract
+func SpecUeOf(supi string) *ChfUe { return nil }
+
 // NewCHFUe builds the subscriber context with go-diameter state machines and id generators, which
 // are outside the verified subset: its contract is assumed.
 //@ func (*CHFContext).NewCHFUe [C11 C12 C10]
 //@   trusted
-//@   ensures result1 == nil ==> SpecUeOK(result0)
+//@   ensures result1 == nil ==> SpecUeOK(result0) && result0 == SpecUeOf(supi)
 //@   ensures result1 != nil ==> result0 == nil
 
 //@ func (*CHFContext).ChfUeFindBySupi [C11 C12 C10 C01 C06]
 //@   trusted
-//@   ensures result1 ==> SpecUeOK(result0)
+//@   ensures result1 ==> SpecUeOK(result0) && result0 == SpecUeOf(supi)
 //@   ensures !result1 ==> result0 == nil
